@@ -288,7 +288,7 @@ package codecs
 //@   ensures avc_length [C10,C15]: p.IsAVC ==> be32(result0, len(buf)) == len(nalu) % 4294967296
 //@   ensures annexb_start_code [C10]: !p.IsAVC ==> be32(result0, len(buf)) == 1
 //@   ensures unit [C10,C15]: eqseq(result0, len(buf) + 4, nalu, 0, len(nalu))
-//@   ensures owned [C09]: buf == nil ==> fresh(result0)
+//@   ensures owned [C09]: fresh(result0) || (buf != nil && sameobj(result0, buf))
 //@ end
 
 //@ pure bool h264IsFUA(p) = bits(p[0], 4, 0) == 28
@@ -319,4 +319,21 @@ package codecs
 
 //@ spec (*H264Packet).IsPartitionHead
 //@   ensures head [C10,C09]: result0 <==> (len(payload) >= 2 && ((bits(payload[0], 4, 0) == 28 || bits(payload[0], 4, 0) == 29) ==> bits(payload[1], 7, 7) == 1))
+//@ end
+
+// ===== C09: AV1Depacketizer never panics on any payload, and owns the fragment it keeps =====
+//@ spec (*AV1Depacketizer).Unmarshal
+//@   requires d.buffer != nil ==> !sameobj(d.buffer, payload)
+//@   modifies d.*
+//@   loop 0: invariant pos [C09]: 1 <= offset && offset <= len(payload) && obuOffset >= 0 && obuOffset <= offset && fresh(buff) && len(buff) >= 0 && int(obuCount) == bits(payload[0], 5, 4)
+//@   loop 0: invariant flags [C09,C13]: (d.Z <==> bits(payload[0], 7, 7) == 1) && (d.Y <==> bits(payload[0], 6, 6) == 1) && (d.N <==> bits(payload[0], 3, 3) == 1) && (obuZ <==> d.Z) && (obuY <==> d.Y)
+//@   loop 0: invariant owned [C09]: d.buffer == nil || fresh(d.buffer) || (old(d.buffer) != nil && sameobj(d.buffer, old(d.buffer)))
+//@   loop 0: decreases len(payload) - offset + ite(obuOffset == 0, 1, 0)
+//@   ensures short [C09]: len(payload) <= 1 ==> errIs(err, errShortPacket)
+//@   ensures flags [C09,C13]: len(payload) > 1 ==> (d.Z <==> bits(payload[0], 7, 7) == 1) && (d.Y <==> bits(payload[0], 6, 6) == 1) && (d.N <==> bits(payload[0], 3, 3) == 1)
+//@   ensures owned [C09]: d.buffer == nil || fresh(d.buffer) || (old(d.buffer) != nil && sameobj(d.buffer, old(d.buffer)))
+//@   ensures result_owned [C09]: err == nil ==> fresh(buff)
+//@ end
+//@ spec (*AV1Depacketizer).IsPartitionHead
+//@   ensures head [C09,C13]: result0 <==> (len(payload) >= 1 && bits(payload[0], 7, 7) == 0)
 //@ end
